@@ -30,6 +30,7 @@ func init() {
 				need(m, &out, "sections_decoded_"+k, 2000)
 			}
 			need(m, &out, "sections_written_and_compared", 3000)
+			need(m, &out, "mixed_unit_sections_decoded", 3000)
 			need(m, &out, "generic_headers_compared", 10000)
 			needSet(m, &out, "table_ids", 2+2+2+0x22+1)
 			need(m, &out, "loopsize_0", 100)
@@ -257,6 +258,44 @@ func runC13(c *mon.Ctx) {
 				c.Sample("tables", map[string]any{"kind": kind.String(), "section": mon.Hex(b, 64)})
 			}
 		}
+	}
+	// units mixing sections of different SI table types on one PID
+	nmix := c.Pick(1500, 60000)
+	for i := int64(0); i < nmix; i++ {
+		if !c.Mine("mixed", i) {
+			continue
+		}
+		r := c.Rng("mixed", i)
+		siKinds := []refts.TableKind{refts.KindNIT, refts.KindSDT, refts.KindEIT, refts.KindTOT}
+		pid := []uint16{0x10, 0x11, 0x12, 0x14}[r.IntN(4)]
+		var secs []*astits.PSISection
+		for j := 0; j < 2+r.IntN(4); j++ {
+			secs = append(secs, gen.RandomSection(r, siKinds[r.IntN(4)], 40+r.IntN(500), r.IntN(2)))
+		}
+		u := gen.NewPSIUnit(r, pid, int(i), secs, r.IntN(3), true)
+		gen.ChunkPSI(r, u, false, false)
+		st := gen.Mux(map[uint16][]*gen.Unit{pid: {u}}, repeatPID(pid, len(u.Plan)), nil)
+		run := RunDemux(st.Bytes, baseCfg("data"))
+		data := map[string]any{"unit_payload": mon.Hex(u.Payload, 1500)}
+		if run.Panic != "" || len(run.Errors()) > 0 {
+			c.Violate("C13/decode/mixed-unit-error", "mixed", i, fmt.Sprintf("%s %v", run.Panic, run.Errors()), data)
+			continue
+		}
+		got, want := run.Datas(), u.Expected()
+		if len(got) != len(want) {
+			c.Violate("C13/decode/mixed-unit-section-count", "mixed", i, fmt.Sprintf("%d tables delivered, %d sections in the unit", len(got), len(want)), data)
+			continue
+		}
+		for j := range got {
+			g := *got[j]
+			g.FirstPacket = nil
+			if d := mon.Diff(&g, want[j], nil); d != "" {
+				c.Violate("C13/decode/mixed-unit-field-differs:"+fieldOf(d), "mixed", i, fmt.Sprintf("section %d: %s", j, d), data)
+				break
+			}
+		}
+		c.Add("mixed_unit_sections_decoded", int64(len(secs)))
+		c.Case(mon.HashBytes("c13mix", u.Payload), true)
 	}
 	// every EIT table id and both variants of NIT/SDT explicitly
 	for id := int64(0x4e); id <= 0x6f; id++ {
